@@ -90,13 +90,19 @@ func (c *RawHTTPResponder) Write(status int, body io.Reader) (written int64, err
 	resp.StatusCode = status
 	c.parseAndSetContentLength()
 	resp.Request = nil
-	if body == http.NoBody {
+	noContent := status < 200 || status == http.StatusNoContent || status == http.StatusNotModified
+	if body == http.NoBody || noContent {
 		// No body bytes are to be sent (answer to a HEAD request, 204, 304, empty upstream body),
 		// whatever length or transfer coding the head declares. http.Response.Write has to be told:
 		// otherwise it fails with a length mismatch after the head, or - when the length is
 		// unknown - appends a chunked terminator that the client takes for the start of the next
 		// response on the tunnel.
 		resp.Request = &http.Request{Method: http.MethodHead}
+	}
+	if noContent && resp.ContentLength < 0 {
+		// A 1xx, 204 or 304 never has content, so an unknown length must not turn into
+		// "Transfer-Encoding: chunked" (plus terminator) or "Connection: close".
+		resp.ContentLength = 0
 	}
 
 	return int64(read), c.writeResponse()
